@@ -8,11 +8,12 @@ import PraatModel.RunKlatt
 import PraatModel.RunExtract
 import PraatModel.RunZero
 import PraatModel.RunIO
+import PraatModel.RunScripts
 
 /-! # line interpreter: one operation per line, one canonical output line -/
 
 section
-variable {α : Type} [LT α] [LE α] [DecidableLT α] [DecidableLE α] [BEq α] [Add α] [Sub α] [Tm α] [Proto α]
+variable {α : Type} [LT α] [LE α] [DecidableLT α] [DecidableLE α] [BEq α] [Add α] [Sub α] [Tm α] [Proto α] [SplitArith α]
 
 def runOp (op : String) : P String := do
   match op with
@@ -195,6 +196,9 @@ def runOp (op : String) : P String := do
     | some p => p
     | none =>
     match runOpZero α op with
+    | some p => p
+    | none =>
+    match runOpScripts α op with
     | some p => p
     | none => throw s!"unknown op {op}"
 where
